@@ -1,6 +1,7 @@
 import BevySyncModel.Proofs.Snap
 import BevySyncModel.Proofs.Asset
 import BevySyncModel.Generated.Snap
+import BevySyncModel.Generated.Sync
 import BevySyncModel.Generated.Ent
 import BevySyncModel.Generated.Conn
 /-! # C03 — a joining client obtains the complete current session state
@@ -27,7 +28,7 @@ theorem C03_code_tie :
     Generated.snapBuildOrder = true ∧ Generated.snapSpawnBeforeComponents = true ∧
     Generated.snapParentsOfKnownPairs = true ∧ Generated.snapClientIgnoresUnknownEntity = true ∧
     Generated.snapAssetClassesGated = true ∧ Generated.entSpawnHandlers = true ∧
-    Generated.connVerifyChecksTransport = true := by
+    Generated.connVerifyChecksTransport = true ∧ Generated.recvHandlesEveryMessage = true := by
   decide
 
 variable {V : Type} [DecidableEq V]
